@@ -240,6 +240,11 @@ func (env *SpecEnv) deref(p Val) Val {
 		if p.Sort == "field" {
 			return st.loadField(env.heapMap(), p.Sub[0].S, p.Sub[1].T, p.S)
 		}
+		if p.Sort == "fieldof" {
+			inner := env.deref(p.Sub[0])
+			k, _ := isNum(p.Sub[1].S)
+			return inner.Sub[k.Int64()]
+		}
 		return st.loadElem(env.heapMap(), p.Sub[0], p.Sub[1].S)
 	case KInt:
 		pt, ok := p.T.Underlying().(*types.Pointer)
@@ -576,7 +581,7 @@ func (env *SpecEnv) evalCall(n *SNode) Val {
 		}
 		switch v.K {
 		case KSlice:
-			return vBool(sOr(sCmp(">=", v.arr(), oldAlloc), sEq(v.capa(), "0")))
+			return vBool(sOr(sCmp(">=", v.arr(), oldAlloc), sAnd(sEq(v.capa(), "0"), sEq(v.length(), "0"))))
 		case KInt:
 			return vBool(sCmp(">=", v.S, oldAlloc))
 		}
@@ -613,6 +618,9 @@ func (env *SpecEnv) evalCall(n *SNode) Val {
 			return vBool(sAnd(sEq(a.arr(), b.arr()), sEq(a.off(), b.off()), sEq(a.length(), b.length())))
 		}
 		env.fail("sameSeq on unsupported values")
+	case "ispow2":
+		st.fc.V.ispow2Prelude()
+		return vBool(sApp("g_ispow2", env.eval(n.Args[0]).S))
 	case "isString":
 		v := env.eval(n.Args[0])
 		return vBool(boolStr(v.K == KString))
